@@ -31,6 +31,8 @@ def model_case(draw, k):
     blocks = draw(universe.script(1, 2, kinds=KINDS))
     # the relation must hold in every output mode (some attributes, e.g. an index's clustered flag, are only kept by one dialect)
     mode = draw(st.sampled_from(["sql", "sql"] + universe.MODES))
+    if any(b["k"] == "alter" and any(op.get("clustered") for op in b["c"]["ops"]) for b in blocks) and draw(st.booleans()):
+        mode = "mssql"  # the only mode that reports an index's clustered flag
     return {"src": "gen", "blocks": blocks, "layouts": [draw(drawn_layout()) for _ in range(k)], "mode": mode}
 
 
